@@ -1,4 +1,7 @@
 """C13 - Ray casting (partial): construction terminates and is total; boxes contain their corners; box-before-polygon."""
+import re
+from ..exprs import ExprBuilder, Normalizer
+from .. import tables as TB
 from ..cfgq import Scope, returned_nodes, iter_chain
 from ..dataflow import consumption
 from ..exprs import strip, short_callee, show, leaf_name, walk
@@ -16,15 +19,17 @@ EXPLANATION = ("D1 every loop of the BVH construction/traversal is pop-only, ite
                "D2 no unguarded may-panic site under the premise 'elements may be empty', the node-list construction sites have the shape the "
                "consumer relies on, and every entry that carries elements is consumed (the entries the consumer's loop leaves behind carry none, or are taken after it); D3 bounding boxes are built by min/max over every polygon point with matching coordinates; D4 a box miss returns None "
                "before the polygon is tested and the polygon test's answer is returned")
-DECIDED = ["D1 construction terminates", "D2 construction is total on every size including none", "D3 boxes contain their corners (accumulator shape)", "D4 box test before polygon test"]
-UNDECIDED = ["accelerated answer = exhaustive answer beyond the producer/consumer agreement on the node list", "exact ray/polygon geometry", "reveal surface extents"]
+DECIDED = ["D1 construction terminates", "D2 construction is total on every size including none", "D3 boxes contain their corners (accumulator shape)", "D4 box test before polygon test", "D5 reveal surfaces span wall plane to window plane on the four edges, for every wall tilt (exact symbolic geometry)", "D6 no element list is dropped while the node list is generated (obstacle conservation)", "D7 the box test is the slab method (max-of-mins / min-of-maxes, two miss conditions)", "D8 point_in_poly classifies the closing vertex and the loop vertices with the same comparison"]
+UNDECIDED = ["accelerated answer = exhaustive answer beyond node-list protocol, obstacle conservation and the slab formula (e.g. the traversal order of PreorderIter)", "exact ray/plane crossing geometry of Ray::intersects_with_data"]
 ASSUMPTIONS = ["f32::min/max semantics; nalgebra point construction"]
-LEVEL_TEXT = ("Partial: four necessary conditions of the ray-casting property are decided from the code's shape - the build loops terminate (worklist pushes are "
+LEVEL_TEXT = ("Partial: necessary conditions of the ray-casting property are decided from the code's shape - the build loops terminate (worklist pushes are "
               "guarded by a both-halves-non-empty test), no construct in the build can panic for any element list including the empty one, every bounding "
-              "box is the coordinate-wise min/max over all points of its polygon (or of two boxes), and the occluder tests its box before its polygon. "
-              "The core of the statement (accelerated = exhaustive, exact geometry) is NOT decided by this family.")
+              "box is the coordinate-wise min/max over all points of its polygon (or of two boxes), the occluder tests its box before its polygon, no element "
+              "list is dropped on a normal path of the node-list generation, the first entry of the node list is one the consumer takes, the box test is the slab "
+              "formula, the crossing-number flags are consistent, and the four reveal rectangles are where the statement puts them as polynomial identities in "
+              "sin/cos of the wall tilt. The remaining core of the statement (traversal = exhaustive scan, exact ray/plane crossing) is NOT decided by this family.")
 LEVEL_NOTE = "Trusted: rustc MIR; the producer/consumer reasoning written next to the BVH exceptions in ctecheck/spec/triage.py."
-TECHNIQUE = "loop classification + may-panic inventory + def-use expression queries on MIR"
+TECHNIQUE = "loop classification + may-panic inventory + def-use expression queries on MIR + drop-site (ownership) audit + normalised formula comparison + exact symbolic geometry over sin/cos of the tilt"
 FIXTURE_EXPECT = ["c13.box"]
 
 
@@ -111,6 +116,151 @@ def check_box_result(ctx, fn, rule, label, expect):
                 ctx.ok(rule, key, "AABB.%s = [%s]" % (field, ", ".join(show(c)[:40] for c in comps)), fn.loc())
     if not done:
         raise AnalysisError("no AABB literal returned by %s" % fn.path)
+
+
+class MinMaxNormalizer(Normalizer):
+    """min/max are associative and commutative: nested calls are flattened and their arguments ordered, so that every spelling of one slab formula compares equal"""
+
+    def fatom(self, fname, args):
+        if fname in ("min", "max"):
+            flat = []
+            for a in args:
+                inner = None
+                if a.d.is_const() and len(a.n.t) == 1:
+                    (m, cf), = a.n.t.items()
+                    if cf == a.d.const_value() and len(m) == 1 and m[0][1] == 1:
+                        for (f1, a1, id1) in self.fatoms:
+                            if id1 == m[0][0] and f1 == fname:
+                                inner = a1
+                flat.extend(inner if inner is not None else [a])
+            flat.sort(key=str)
+            args = flat
+        return Normalizer.fatom(self, fname, args)
+
+
+def check_slab_test(ctx, prog, rule="c13.slab"):
+    """AABB::intersects is the slab test: with t_lo/t_hi the ray parameters at the two faces of each axis,
+         t_enter = max over axes of min(t_lo, t_hi),   t_leave = min over axes of max(t_lo, t_hi),
+       a miss iff t_leave < 0 (box behind the origin) or t_enter > t_leave; otherwise a hit at t_enter"""
+    fs = [f for f in prog.fns.values() if f.path.endswith("Intersectable>::intersects") and "aabb::AABB" in f.path]
+    ctx.require(len(fs) == 1, "AABB::intersects not found")
+    f = fs[0]
+    sc = Scope(prog, f)
+    lm = {}
+    for ax in "xyz":
+        lm["self.min." + ax] = "a" + ax
+        lm["self.max." + ax] = "b" + ax
+        lm["ray.origin." + ax] = "o" + ax
+        lm["ray.dir." + ax] = "d" + ax
+    nz = MinMaxNormalizer(lm, {"min": "min", "max": "max"}, strict=False)
+    T = {ax: ("(a%s - o%s) / d%s" % (ax, ax, ax), "(b%s - o%s) / d%s" % (ax, ax, ax)) for ax in "xyz"}
+    tenter = nz.ref("max(max(min(%s, %s), min(%s, %s)), min(%s, %s))" % (T["x"] + T["y"] + T["z"]))
+    tleave = nz.ref("min(min(max(%s, %s), max(%s, %s)), max(%s, %s))" % (T["x"] + T["y"] + T["z"]))
+    zero = nz.ref("0")
+    bad = []
+    undecided = []
+    for behind, crossed in ((True, False), (True, True), (False, True), (False, False)):
+        def atom_value(n_):
+            n_ = strip(n_)
+            if n_[0] == "bin" and n_[1] in ("Lt", "Le", "Gt", "Ge"):
+                l_, r_ = nz.code(strip(n_[2])), nz.code(strip(n_[3]))
+                op = n_[1]
+                if op in ("Gt", "Ge"):
+                    l_, r_ = r_, l_          # l < r
+                if l_.equals(tleave) and r_.equals(zero):
+                    return "1" if behind else "0"
+                if l_.equals(tleave) and r_.equals(tenter):
+                    return "1" if crossed else "0"
+            return None
+        r = TB.eval_return(sc, atom_value)
+        if isinstance(r, tuple) and r and r[0] == "stuck":
+            undecided.append(r[1])
+            continue
+        r = strip(r)
+        hit = r[0] == "agg" and r[1].endswith("Some")
+        want_hit = not behind and not crossed
+        if hit != want_hit:
+            bad.append("box %s, t_enter %s t_leave -> %s" % ("behind the origin" if behind else "ahead", ">" if crossed else "<=", "hit" if hit else "miss"))
+        elif hit and not nz.code(strip(r[3][0])).equals(tenter):
+            bad.append("a hit is reported at %s instead of t_enter" % str(nz.code(strip(r[3][0])))[:80])
+    if undecided:
+        # the tests of the function are not the two questions of the slab method on the quantities of the reference
+        ctx.violation(rule, rule + "|AABB::intersects", "the box test branches on %s, which is neither `t_leave < 0` nor `t_enter > t_leave` with t_enter = max_axes min(t_lo, t_hi) and "
+                      "t_leave = min_axes max(t_lo, t_hi) over the three axes: a box can be reported as missed by a ray that crosses it, and the obstacles inside are then skipped"
+                      % undecided[0][:200], f.loc())
+    elif bad:
+        ctx.violation(rule, rule + "|AABB::intersects", "the box test differs from the slab method: %s" % "; ".join(bad[:3]), f.loc())
+    else:
+        ctx.ok(rule, rule + "|AABB::intersects", "slab test: miss iff t_leave < 0 or t_enter > t_leave, with t_enter/t_leave the max-of-mins / min-of-maxes over the three axes; hit at t_enter",
+               f.loc())
+
+
+def check_point_in_poly(ctx, prog, rule="c13.pip"):
+    """crossing-number test: the flag "this vertex is on or above the horizontal through the point" is computed once for the closing vertex before the loop and once per
+    vertex inside it; both must be the same comparison (same operator against the same coordinate), otherwise an edge whose end is level with the point is counted as
+    crossing on one side and not on the other, and points level with a corner are classified wrongly"""
+    fs = [f for f in prog.fns.values() if f.path.endswith("raytracing::ray::point_in_poly")]
+    ctx.require(len(fs) == 1, "point_in_poly not found")
+    f = fs[0]
+    body = f.body
+    eb = ExprBuilder(body)
+    nflags = 0
+    for l, nm in sorted(body.names.items()):
+        if body.local_ty(l) != "bool":
+            continue
+        forms = []
+        for d in body.defs().get(l, []):
+            if d[0] != "st":
+                continue
+            n = strip(eb.rvalue(d[3]["rv"]))
+            if n[0] == "bin" and n[1] in ("Lt", "Le", "Gt", "Ge"):
+                a, b = leaf_name(strip(n[2])) or show(strip(n[2])), leaf_name(strip(n[3])) or show(strip(n[3]))
+                forms.append((n[1], a.rsplit(".", 1)[-1], b, d[3].get("ln")))
+        if len(forms) < 2:
+            continue
+        nflags += 1
+        ops = sorted({(op, coord, rhs) for op, coord, rhs, _ in forms})
+        key = "%s|vertex-flag|%s" % (rule, nm)
+        if len(ops) == 1:
+            ctx.ok(rule, key, "`%s` is `vertex.%s %s %s` both for the closing vertex and inside the loop" % (nm, ops[0][1], {"Ge": ">=", "Gt": ">", "Le": "<=", "Lt": "<"}[ops[0][0]], ops[0][2]),
+                   f.loc(forms[0][3]))
+        else:
+            ctx.violation(rule, key, "`%s` classifies the closing vertex and the loop's vertices with different comparisons (%s): a vertex exactly level with the point is \"above\" in one "
+                          "and \"below\" in the other, so the crossing count of a point level with a corner is wrong" % (nm, ", ".join("%s %s %s" % (c, o, r) for o, c, r in ops)), f.loc(forms[0][3]))
+    ctx.floor(rule, "loop-carried vertex flags in point_in_poly", nflags, 1)
+
+
+def check_node_list_conservation(ctx, prog, rule):
+    gen = prog.find("energy::raytracing::bvh::BVH::<T>::generate_node_list")
+    # conservation of obstacles in the node list: an element list (Vec<T>, Option<Vec<T>>) that generate_node_list owns is moved on - into a work item, a
+    # node-list entry, another list (extend/append) or the partition - and never dropped on a normal path; a dropped list is a set of obstacles the tree forgets
+    ndrops = 0
+    eb_g = ExprBuilder(gen.body)
+    cloned = set()
+    for b, t in gen.body.calls():
+        if short_callee(callee_name(t) or "") in ("clone", "to_vec", "cloned", "to_owned") and t["args"]:
+            r_ = strip(eb_g.operand(t["args"][0]))
+            if r_[0] in ("var", "arg"):
+                cloned.add(r_[1])
+    for b in range(gen.body.n):
+        blk = gen.body.blocks[b]
+        t = blk["term"]
+        if t["t"] != "drop" or t.get("p") is None:
+            continue
+        loc_ = t["p"] if isinstance(t["p"], int) else t["p"]["l"]
+        ty = gen.body.local_ty(loc_)
+        if not re.search(r"(^|<)std::vec::Vec<T>", ty):
+            continue
+        ndrops += 1
+        if blk.get("cleanup") or loc_ in cloned:
+            continue
+        nm = gen.body.names.get(loc_, "_%d" % loc_)
+        ctx.violation(rule, rule + "|generate_node_list|%s" % nm, "the element list `%s` is dropped on a normal path of generate_node_list: the obstacles it holds at that point "
+                      "are in no leaf of the tree, so a ray they block is reported as free" % nm, gen.loc(t.get("ln")))
+    ctx.floor(rule, "element-list drop sites (unwind paths) seen in generate_node_list", ndrops, 4)
+    if not any(i.rule == rule and i.verdict == "violation" for i in ctx.instances):
+        ctx.ok(rule, rule + "|generate_node_list", "every element list is moved on (work item, leaf entry, extend, partition); the %d drops of such lists are all on unwind paths"
+               % ndrops, gen.loc())
 
 
 def run(ctx):
@@ -243,6 +393,9 @@ def run(ctx):
         else:
             ctx.ok("c13.protocol", key, "the entry that can be first in the node list %s" % ("carries no elements" if not carries else "is taken by the consumer after its loop (%s)" % ",".join(after)),
                    gen.loc(t.get("ln")))
+    check_node_list_conservation(ctx, prog, "c13.conserve")
+    check_slab_test(ctx, prog)
+    check_point_in_poly(ctx, prog)
     # D5 reveal surfaces of set-back windows (exact symbolic geometry, ctecheck/rules/_reveal.py)
     from ._reveal import check_reveals
     check_reveals(ctx, "c13.reveal", "c13.reveal")
